@@ -166,7 +166,8 @@ class Shadow(TorchDispatchMode):
             return idx
         if storage_cplx and not t.is_complex():
             return idx // 2
-        raise Unsupported("complex view of real shadow storage")
+        # complex view of real storage: element i covers the real slots 2i, 2i+1
+        return np.concatenate([(idx * 2).ravel(), (idx * 2 + 1).ravel()])
 
     def get(self, t: torch.Tensor) -> np.ndarray | None:
         """object ndarray of Vals with t's shape, or None if t is fully concrete."""
@@ -182,7 +183,28 @@ class Shadow(TorchDispatchMode):
             arr = _take(objs, raw // 2)
             part = raw % 2
         else:
-            raise Unsupported("complex view of real shadow storage")
+            # complex view of real storage (view_as_complex): pair the real slots 2i, 2i+1
+            re_, im_ = _take(objs, raw * 2), _take(objs, raw * 2 + 1)
+            if np.asarray(_isnone(re_), dtype=bool).all() and np.asarray(_isnone(im_), dtype=bool).all():
+                return None
+            conc = tensor_values(t.resolve_conj().resolve_neg() if (t.is_conj() or t.is_neg()) else t)
+            base = t.detach()
+            if base.is_conj():
+                base = base.conj()  # undo the lazy bit: we want the stored value
+                conc = tensor_values(base.resolve_conj())
+            arr = np.empty(raw.shape, dtype=object)
+            fr, fi, fa, fc = re_.ravel(), im_.ravel(), arr.ravel(), np.asarray(conc).ravel()
+            j = Val.const(1j)
+            for i in range(fa.size):
+                a = fr[i] if fr[i] is not None else Val.const(float(fc[i].real))
+                b = fi[i] if fi[i] is not None else Val.const(float(fc[i].imag))
+                fa[i] = a + b * j
+            arr = fa.reshape(raw.shape)
+            if t.is_conj():
+                arr = _f_conj(arr)
+            if t.is_neg():
+                arr = _f_neg(arr)
+            return arr
         mask = np.asarray(_isnone(arr), dtype=bool).reshape(arr.shape)
         if mask.all():
             return None
@@ -220,13 +242,29 @@ class Shadow(TorchDispatchMode):
     def write(self, t: torch.Tensor, arr: np.ndarray):
         """store Vals into the storage elements addressed by t (in-place semantics)."""
         objs, cplx = self._entry(t, True)
-        if t.is_complex() != cplx:
-            raise Unsupported("write through a reinterpreting view")
         if t.is_conj() or t.is_neg():
             raise Unsupported("write through conj/neg view")
         idx = index_map(t)
         a = np.broadcast_to(oarr(arr), idx.shape)
-        objs[idx.ravel()] = np.asarray(a, dtype=object).ravel()
+        if t.is_complex() == cplx:
+            objs[idx.ravel()] = np.asarray(a, dtype=object).ravel()
+            return
+        flat = np.asarray(a, dtype=object).ravel()
+        if t.is_complex() and not cplx:
+            # complex view of real storage: split into the two real slots
+            for i, v in zip(idx.ravel().tolist(), flat):
+                v = Val.const(v)
+                objs[2 * i] = v.real()
+                objs[2 * i + 1] = v.imag()
+            return
+        # real view of complex storage: replace one component of the stored complex value
+        conc = tensor_values(t)
+        for (i, v), c in zip(zip(idx.ravel().tolist(), flat), np.asarray(conc).ravel()):
+            old = objs[i // 2]
+            v = Val.const(v)
+            if old is None:
+                raise Unsupported("partial write into a concrete complex element")
+            objs[i // 2] = (v + old.imag() * Val.const(1j)) if i % 2 == 0 else (old.real() + v * Val.const(1j))
 
     def set_new(self, t: torch.Tensor, arr: np.ndarray):
         self.write(t, arr)
